@@ -79,6 +79,13 @@ func newScripted(s *plan.Src, lock bool) *scripted {
 	return &scripted{data: d, steps: s.Steps, lock: lock, wantG: lock}
 }
 
+// tempErr is a transient-looking error (net.Error shape).
+type tempErr struct{ timeout bool }
+
+func (e tempErr) Error() string   { return "verif: transient source failure" }
+func (e tempErr) Temporary() bool { return true }
+func (e tempErr) Timeout() bool   { return e.timeout }
+
 func kindErr(k string) error {
 	switch k {
 	case "eof":
@@ -87,6 +94,26 @@ func kindErr(k string) error {
 		return io.ErrUnexpectedEOF
 	case "custom":
 		return errCustom
+	case "eintr":
+		return syscall.EINTR
+	case "eagain":
+		return syscall.EAGAIN
+	case "patherr":
+		return &os.PathError{Op: "read", Path: "/dev/urandom", Err: syscall.EINTR}
+	case "temporary":
+		return tempErr{}
+	case "timeout":
+		return tempErr{timeout: true}
+	case "deadline":
+		return os.ErrDeadlineExceeded
+	case "noprogress":
+		return io.ErrNoProgress
+	case "shortbuffer":
+		return io.ErrShortBuffer
+	case "closedpipe":
+		return io.ErrClosedPipe
+	case "wrappedeof":
+		return fmt.Errorf("verif: wrapped: %w", io.EOF)
 	}
 	return nil
 }
@@ -307,6 +334,8 @@ func (st *state) exec(op *plan.Op, shared *scripted) (res plan.Res) {
 				bb[i] = 0xFF
 			}
 			res.Out1b = hex.EncodeToString(a)
+			// a later call with the same arguments must not see what the caller did to b
+			res.Out3 = hex.EncodeToString(bip39.MnemonicToSeed(s, p))
 			if cap(a) > 0 && cap(b) > 0 {
 				pa := uintptr(unsafe.Pointer(unsafe.SliceData(a[:cap(a)])))
 				pb := uintptr(unsafe.Pointer(unsafe.SliceData(b[:cap(b)])))
